@@ -1,7 +1,7 @@
 (* Entry points of the model, addressed by name over the line protocol. *)
 From Coq Require Import String.
 From Coq Require Import NArith ZArith List Bool.
-From DI Require Import Result PyStr Val Codec Version Dpkg Deps Package Contents Deb822 Email Debcon Copyright Unsign.
+From DI Require Import Result PyStr Val Codec Version Dpkg Deps Package Contents Deb822 Email Debcon Copyright Unsign Mapping.
 Import ListNotations.
 Open Scope N_scope.
 
@@ -299,6 +299,79 @@ Definition dispatch_unsign (fn : str) (args : list val) : option val :=
   | _ => None
   end.
 
+(* ---------- Debian822 mapping ---------- *)
+
+Definition val_pairs (l : list val) : list (str * str) :=
+  flat_map (fun v => match v with VList [VStr k; VStr x] => [(k, x)] | _ => [] end) l.
+
+Definition val_op (v : val) : option (op str) :=
+  match v with
+  | VList [VStr t; VStr k] =>
+      if str_eqb t (lit "get") then Some (OGet k)
+      else if str_eqb t (lit "del") then Some (ODel k)
+      else if str_eqb t (lit "in") then Some (OContains k)
+      else None
+  | VList [VStr t; VStr k; VStr x] => if str_eqb t (lit "set") then Some (OSet k x) else None
+  | VList [VStr t] =>
+      if str_eqb t (lit "len") then Some OLen
+      else if str_eqb t (lit "iter") then Some OIter
+      else if str_eqb t (lit "todict") then Some OToDict
+      else None
+  | _ => None
+  end.
+
+Definition VObs (o : obs str) : val :=
+  match o with
+  | ObsVal _ v => VStr v
+  | ObsKeyError _ => VExn KeyError
+  | ObsNone _ => VNone
+  | ObsBool _ b => VBool b
+  | ObsLen _ n => VN (N.of_nat n)
+  | ObsKeys _ ks => VStrs ks
+  | ObsItems _ d => VDict d
+  end.
+
+Definition VCvalue (c : cvalue) : val :=
+  match c with
+  | CStr s => VStr s
+  | CInt z => VInt z
+  | CRel r => VList [rel_to_val r]
+  end.
+
+Definition dispatch_mapping (fn : str) (args : list val) : option val :=
+  match args with
+  | [VStr route; init; VList ops] =>
+      if fn_is "debian822_history" fn then
+        let d0 : pydict str :=
+          match init with
+          | VStr t => from_text822 t
+          | VList l =>
+              if str_eqb route (lit "strings")
+              then from_items lower_name str (map item_of_string (val_strs l))
+              else from_items lower_name str (val_pairs l)
+          | _ => []
+          end in
+        Some (VList (map VObs (run_ops str (step822 lower_name str) d0
+                                  (flat_map (fun v => match val_op v with Some o => [o] | None => [] end) ops))))
+      else None
+  | [VList items] =>
+      if fn_is "parse_control_fields" fn then
+        Some (match parse_control_fields (val_pairs items) with
+              | None => VStr (lit "OUT-OF-MODEL")
+              | Some r => VRes (fun d => VList (map (fun kv => VPair (VStr (fst kv)) (VCvalue (snd kv))) d)) r
+              end)
+      else if fn_is "dumps822" fn then Some (VStr (dumps822 (val_pairs items)))
+      else None
+  | [VStr a] =>
+      if fn_is "maintainer" fn then
+        Some (match maintainer_from_value a with
+              | None => VStr (lit "OUT-OF-MODEL")
+              | Some na => VList [VStr (fst na); VStr (snd na); VStr (maintainer_dumps na)]
+              end)
+      else None
+  | _ => None
+  end.
+
 Definition dispatch_all (fn : str) (args : list val) : val :=
   match dispatch_version fn args with
   | Some v => v
@@ -320,7 +393,11 @@ Definition dispatch_all (fn : str) (args : list val) : val :=
                       | None =>
                           match dispatch_unsign fn args with
                           | Some v => v
-                          | None => dispatch fn args
+                          | None =>
+                              match dispatch_mapping fn args with
+                              | Some v => v
+                              | None => dispatch fn args
+                              end
                           end
                       end
                   end
